@@ -42,7 +42,8 @@ def run(R):
     try:
         n = 160 if quick else 3000
         while len(jobs) < n:
-            ops = rng.choice([("modify",), ("modify", "create", "delete"), ("modify", "rename", "create", "delete"), ("create",), ("delete",)])
+            ops = rng.choice([("modify",), ("modify", "create", "delete"), ("modify", "rename", "create", "delete"), ("create",), ("delete",),
+                              ("modify", "create-empty", "delete-empty"), ("create-empty", "delete-empty", "create", "delete"), ("chmod", "modify")])
             A, B, ch, prod, ctx, text = drv.make_case(rng, P, ops=ops, producer=rng.choice(["gnu-u", "git", "emit-u", "emit-c", "gnu-c"]))
             if drv.has_d2(text):
                 continue
@@ -67,6 +68,10 @@ def run(R):
         got = drv.contents(r.after)
         if r.exit != 0 or drv.asked(r):
             R.oracle_fail(f"-R of a valid {prod} diff applied to tree B exits {r.exit}" + (" and asks a question" if drv.asked(r) else ""), data); continue
+        if got == want and prod == "git":
+            bad = [p for p, (l, m) in A.items() if p in B and r.after[p][2] != m]
+            if bad:
+                R.oracle_fail(f"-R of a git diff: mode of {bad[0]!r} is {oct(r.after[bad[0]][2])}, tree A has {oct(A[bad[0]][1])} (old and new mode must be exchanged)", data); continue
         if got != want:
             extra = sorted(set(got) - set(want)); miss = sorted(set(want) - set(got)); diff = sorted(p for p in want if p in got and got[p] != want[p])
             R.oracle_fail(f"-R of a {prod} diff applied to tree B does not restore tree A (extra {extra[:3]}, missing {miss[:3]}, different {diff[:3]}): "
